@@ -1,12 +1,19 @@
 #!/bin/bash
 # usage: eval_copy.sh <patch.diff> [Cnn ...]  -- apply a patch to a scratch export of /repo HEAD and run the checks there
-# (ZCSA_REPO points the analyser at the copy; /repo is not touched).  Default: all 20 checks.
+# (ZCSA_REPO points the analyser at the copy; /repo is not touched).  Default: all 20 checks, run in parallel
+# (the first alone, to fill the parse cache for the copy).
 P=$1; shift
 PROPS="$@"; [ -z "$PROPS" ] && PROPS="C01 C02 C03 C04 C05 C06 C07 C08 C09 C10 C11 C12 C13 C14 C15 C16 C17 C18 C19 C20"
 T=$(mktemp -d /tmp/zcsa-copy-XXXXXX)
 git -C /repo archive HEAD src include meson.build meson_options.txt zchunk_format.txt | tar -x -C $T
 (cd $T && patch -p1 -s < $P) || { echo "PATCH-FAILED"; rm -rf $T; exit 2; }
+mkdir -p $T/_logs
+run1() { ZCSA_REPO=$T ZCSA_OUTDIR=$T/_out/$1 python3 -m zcsa check $1 --tier quick > $T/_logs/$1.log 2>&1; }
+export -f run1; export T
+set -- $PROPS
+run1 $1; shift
+[ $# -gt 0 ] && printf "%s\n" "$@" | xargs -P 10 -I{} bash -c 'run1 {}'
 for C in $PROPS; do
-  ZCSA_REPO=$T ZCSA_OUTDIR=$T/_out python3 -m zcsa check $C --tier quick 2>&1 | grep -E "^(FINDING|VIOLATION|ANALYSIS)" | sed "s#$T/##"
+  grep -E "^(FINDING|VIOLATION|ANALYSIS)" $T/_logs/$C.log | sed "s#$T/##"
 done
 rm -rf $T
